@@ -143,6 +143,35 @@ def ref_selected(desc, spath) -> bool:
     raise ValueError(desc)
 
 
+def ref_selected_path(desc, path) -> bool:
+    """membership of a full address path; ("idx", i, inner) restricts an inner selection to index i of
+    a top-level vector combinator"""
+    if desc[0] == "idx":
+        return len(path) > 0 and path[0] == desc[1] and ref_selected(desc[2], static_part(path[1:]))
+    return ref_selected(desc, static_part(path))
+
+
+def index_specs(node: Node, state: State, tier: str, n_cont=2):
+    """IndexRequest(i, Update / Regenerate) for every index of a top-level vector combinator"""
+    ret, R = ref_run(node, state.args, state.asg)
+    idxs = sorted({t[0][0] for t in R.terms if t[0] and isinstance(t[0][0], int)})
+    specs = []
+    inner = node.children()[0] if node.children() else None
+    for i in idxs:
+        terms_i = [t for t in R.terms if t[0][0] == i]
+        for t in terms_i[: (2 if tier == "quick" else 4)]:
+            for v in alt_values(t)[:1]:
+                sp = Spec("index", idx=i, inner=Spec("update", constraint={t[0][1:]: v}), tags="nochange", label="index_update")
+                sp.constraint = {t[0]: v}
+                specs.append(sp)
+        if inner is not None and inner.regen_ok:
+            for sel in (("all",), ("none",)) + tuple(("at", static_part(t[0][1:])[:1]) for t in terms_i[:1] if static_part(t[0][1:])):
+                sp = Spec("index", idx=i, inner=Spec("regenerate", selection=sel), tags="nochange", label="index_regenerate")
+                sp.selection = ("idx", i, sel)
+                specs.append(sp)
+    return specs
+
+
 def make_argdiffs(jargs, tags: str):
     if tags == "nochange":
         return Diff.no_change(jargs)
@@ -231,6 +260,8 @@ class Space:
                 self._edit = jax.jit(edit)
                 self._assess = jax.jit(assess)
         self.n_cont = prog.n_cont
+        self._edit_raw = edit
+        self._static_edit = {}
 
     # ------------------------------------------------------------------------------------
     def _mk_state(self, res, args, depth, history):
@@ -287,10 +318,23 @@ class Space:
     def apply(self, state: State, spec: Spec, request=None, max_paths=256, key=None):
         """Run the real edit; returns list of (result dict with numpy leaves, seam Path)."""
         new_args = state.args if spec.new_args is None else spec.new_args
-        argdiffs = make_argdiffs(to_jax_args(new_args), spec.tags)
         req = request if request is not None else self.build_request(spec)
         k = self.key if key is None else key
-        fn = lambda: self._edit(k, state.trace, req, argdiffs)
+        if self.static_args:
+            # python-level arguments stay concrete inside the edit: close over the argdiffs
+            from .gfi import concrete_args
+
+            ck = ("edit", args_key(new_args), spec.tags)
+            if ck not in self._static_edit:
+                ad = make_argdiffs(concrete_args(new_args), spec.tags)
+                raw = self._edit_raw
+                with seam.seam(self.n_cont):
+                    self._static_edit[ck] = jax.jit(lambda key, tr, req: raw(key, tr, req, ad))
+            jf = self._static_edit[ck]
+            fn = lambda: jf(k, state.trace, req)
+        else:
+            argdiffs = make_argdiffs(to_jax_args(new_args), spec.tags)
+            fn = lambda: self._edit(k, state.trace, req, argdiffs)
         with seam.seam(self.n_cont):
             paths, stats = seam.explore(fn, max_paths=max_paths)
         return [(p.result, p) for p in paths], new_args
@@ -322,7 +366,7 @@ def alt_values(term, n_cont=2):
     return [x for x in sup if x != v]
 
 
-def update_specs(node: Node, state: State, args_alphabet, tier: str, max_single=6, max_pairs=1):
+def update_specs(node: Node, state: State, args_alphabet, tier: str, max_single=6, max_pairs=1, all_arg_changes=False):
     """constraints: every single present address x alternative value; a few pairs; the empty constraint
     under every argument change."""
     ret, R = ref_run(node, state.args, state.asg)
@@ -338,7 +382,7 @@ def update_specs(node: Node, state: State, args_alphabet, tier: str, max_single=
         specs.append(Spec("update", constraint={p: v}, tags="nochange", label="single"))
     other_args = [a for a in args_alphabet if args_key(a) != args_key(state.args)]
     specs.append(Spec("update", constraint={}, tags="unknown", label="empty+unknown_tags"))
-    for a in other_args[:1 if tier == "quick" else 2]:
+    for a in other_args[: (None if all_arg_changes else (1 if tier == "quick" else 2))]:
         specs.append(Spec("update", constraint={}, new_args=a, tags="unknown", label="empty+argchange"))
         for p, v in singles[:1 if tier == "quick" else 3]:
             specs.append(Spec("update", constraint={p: v}, new_args=a, tags="unknown", label="single+argchange"))
